@@ -15,7 +15,7 @@ structure St where
   n : Nat := 0
   c : Cluster := fun _ => SimpleSeq.new 0 100
 
-def step (s : St) (ws : List String) : St × String :=
+def stepC (s : St) (ws : List String) : St × String :=
   match ws with
   | ["db", "nextid", k] =>
     let r := s.db.step (.nextId k); ({ s with db := r.1 }, s!"id {r.2.1}")
@@ -59,6 +59,16 @@ def step (s : St) (ws : List String) : St × String :=
     (s, "ends " ++ ",".intercalate ((List.range s.n).map fun i => toString (s.c i).endId))
   | _ => (s, "bad-op")
 
+/-- the same cluster run on real ConfigActors (batch 100 from 0; which key is published and whether its content
+changes is irrelevant to the ids; both kinds of restart leave the node at the replicated high-water mark) -/
+def step (s : St) (ws : List String) : St × String :=
+  match ws with
+  | ["r", "new", n] => stepC s ["c", "new", n, "0", "100"]
+  | ["r", "issue", i, _, _] => stepC s ["c", "issue", i]
+  | ["r", "restart", i, _] => stepC s ["c", "restart", i]
+  | ["r", "ends"] => stepC s ["c", "ends"]
+  | _ => stepC s ws
+
 /-- spec oracle state: what the implementation has handed out so far -/
 structure SpecSt where
   pending : List String := []
@@ -94,6 +104,15 @@ def specStep (s : SpecSt) (ws : List String) : SpecSt × String :=
                   else ({ s0 with gIds := v :: s.gIds }, "spec ok")
       | none => (s0, "spec FAIL unparsable")
     | ["c", "new", _, _, _], _ => ({ s0 with cTop := none }, "-")
+    | ["r", "new", _], _ => ({ s0 with cTop := none }, "-")
+    | ["r", "issue", _, _, _], "id" :: v :: _ =>
+      match v.toNat? with
+      | some v =>
+        match s.cTop with
+        | some t => if t < v then ({ s0 with cTop := some v }, "spec ok")
+                    else (s0, s!"spec FAIL history id {v} is not above the previous id {t}")
+        | none => ({ s0 with cTop := some v }, "spec ok")
+      | none => (s0, "spec FAIL unparsable")
     | ["c", "issue", _], "id" :: v :: _ =>
       match v.toNat? with
       | some v =>
